@@ -35,11 +35,11 @@ fn opt_legal(o: &Opt) -> bool {
 }
 
 fn build_options(o: &Opt) -> Result<Options, String> {
-    let mut x = Options::default().block_size(o.block).map_err(|e| format!("{e:?}"))?;
-    x = x.max_lpc_order(o.lpc).map_err(|e| format!("{e:?}"))?;
-    x = x.max_partition_order(o.part).map_err(|e| format!("{e:?}"))?;
+    let mut x = Options::default().block_size(o.block).map_err(|e| crate::api::show(&e))?;
+    x = x.max_lpc_order(o.lpc).map_err(|e| crate::api::show(&e))?;
+    x = x.max_partition_order(o.part).map_err(|e| crate::api::show(&e))?;
     if let Some(p) = o.pad {
-        x = x.padding(p).map_err(|e| format!("{e:?}"))?;
+        x = x.padding(p).map_err(|e| crate::api::show(&e))?;
     }
     Ok(x)
 }
@@ -130,11 +130,11 @@ fn grid(ctx: &Ctx, rep: &mut Report) {
                         let opts = build_options(o)?;
                         let mut c = Cursor::new(Vec::new());
                         match front {
-                            Front::Sample => FlacSampleWriter::new(&mut c, opts, rate, bps, ch, declared.then_some(40 * ch.max(1) as u64)).map(|_| ()).map_err(|e| format!("{e:?}")),
-                            Front::Channel => FlacChannelWriter::new(&mut c, opts, rate, bps, ch, declared.then_some(40)).map(|_| ()).map_err(|e| format!("{e:?}")),
+                            Front::Sample => FlacSampleWriter::new(&mut c, opts, rate, bps, ch, declared.then_some(40 * ch.max(1) as u64)).map(|_| ()).map_err(|e| crate::api::show(&e)),
+                            Front::Channel => FlacChannelWriter::new(&mut c, opts, rate, bps, ch, declared.then_some(40)).map(|_| ()).map_err(|e| crate::api::show(&e)),
                             _ => FlacByteWriter::endian(&mut c, flac_codec::byteorder::LittleEndian, opts, rate, bps, ch, declared.then_some(40 * ch.max(1) as u64 * (bps.clamp(1, 32).div_ceil(8)) as u64))
                                 .map(|_| ())
-                                .map_err(|e| format!("{e:?}")),
+                                .map_err(|e| crate::api::show(&e)),
                         }
                     });
                     let replay = || J::obj().set("bps", bps).set("channels", ch).set("rate", rate).set("options", format!("{o:?}")).set("front", format!("{front:?}")).set("declared", declared);
@@ -177,9 +177,9 @@ fn grid(ctx: &Ctx, rep: &mut Report) {
                     let mut c = Cursor::new(Vec::new());
                     let o = Options::default().no_seektable();
                     match front {
-                        Front::Sample => FlacSampleWriter::new(&mut c, o, 44100, 16, ch, Some(total)).map(|_| ()).map_err(|e| format!("{e:?}")),
-                        Front::Channel => FlacChannelWriter::new(&mut c, o, 44100, 16, ch, Some(total)).map(|_| ()).map_err(|e| format!("{e:?}")),
-                        _ => FlacByteWriter::endian(&mut c, flac_codec::byteorder::LittleEndian, o, 44100, 16, ch, Some(total)).map(|_| ()).map_err(|e| format!("{e:?}")),
+                        Front::Sample => FlacSampleWriter::new(&mut c, o, 44100, 16, ch, Some(total)).map(|_| ()).map_err(|e| crate::api::show(&e)),
+                        Front::Channel => FlacChannelWriter::new(&mut c, o, 44100, 16, ch, Some(total)).map(|_| ()).map_err(|e| crate::api::show(&e)),
+                        _ => FlacByteWriter::endian(&mut c, flac_codec::byteorder::LittleEndian, o, 44100, 16, ch, Some(total)).map(|_| ()).map_err(|e| crate::api::show(&e)),
                     }
                 });
                 if let Err(p) = r {
@@ -204,7 +204,7 @@ fn grid(ctx: &Ctx, rep: &mut Report) {
                         let mut out = Vec::new();
                         let mut w = FlacStreamWriter::new(&mut out, Options::default());
                         let samples = vec![0i32; n * ch.clamp(1, 8) as usize];
-                        w.write(rate, ch, bps, &samples).map_err(|e| format!("{e:?}"))
+                        w.write(rate, ch, bps, &samples).map_err(|e| crate::api::show(&e))
                     });
                     if let Err(p) = r {
                         rep.violation("panic", format!("stream-writer:{}", p.signature()), format!("FlacStreamWriter::write(rate {rate}, ch {ch}, bps {bps}, {n} frames): {} at {}", p.msg, p.location), J::obj().set("bps", bps).set("channels", ch).set("rate", rate).set("frames", n));
@@ -268,10 +268,10 @@ fn declared_length(rep: &mut Report, rng: &mut Rng) {
                 for s in &splits {
                     let a = pos * ch as usize;
                     let b = (pos + s) * ch as usize;
-                    results.push(w.write(&pcm[a..b]).map_err(|e| format!("{e:?}")));
+                    results.push(w.write(&pcm[a..b]).map_err(|e| crate::api::show(&e)));
                     pos += s;
                 }
-                fin = w.finalize().map_err(|e| format!("{e:?}"));
+                fin = w.finalize().map_err(|e| crate::api::show(&e));
             }
             Front::ByteLE | Front::ByteBE => {
                 let bytes = flacref::pcm::to_bytes(&pcm, bps, false);
@@ -282,7 +282,7 @@ fn declared_length(rep: &mut Report, rng: &mut Rng) {
                     results.push(w.write_all(&bytes[pos * unit..(pos + s) * unit]).map_err(|e| format!("Io({e:?})")));
                     pos += s;
                 }
-                fin = w.finalize().map_err(|e| format!("{e:?}"));
+                fin = w.finalize().map_err(|e| crate::api::show(&e));
             }
             Front::Channel => {
                 let chans = flacref::dec::deinterleave(&pcm, ch as usize);
@@ -290,10 +290,10 @@ fn declared_length(rep: &mut Report, rng: &mut Rng) {
                 let mut pos = 0;
                 for s in &splits {
                     let part: Vec<&[i32]> = chans.iter().map(|x| &x[pos..pos + s]).collect();
-                    results.push(w.write(&part).map_err(|e| format!("{e:?}")));
+                    results.push(w.write(&part).map_err(|e| crate::api::show(&e)));
                     pos += s;
                 }
-                fin = w.finalize().map_err(|e| format!("{e:?}"));
+                fin = w.finalize().map_err(|e| crate::api::show(&e));
             }
         }
         (results, fin, c.into_inner())
@@ -355,7 +355,7 @@ fn undeclared(rep: &mut Report, rng: &mut Rng) {
             Ok(d) => rep.violation("contract", "undeclared-total-not-recorded", format!("wrote {frames} frames, STREAMINFO says {}", d.info.total), J::obj().set("cfg", cfg.to_json())),
             Err(e) => rep.violation("nonconforming", format!("refdec:{}", e.rule), format!("{e}"), J::obj().set("cfg", cfg.to_json())),
         },
-        Ok(Err(e)) => rep.violation("encode-error", format!("encode-error:{}", err_name(&e.err)), format!("{e:?}"), J::obj().set("cfg", cfg.to_json())),
+        Ok(Err(e)) => rep.violation("encode-error", format!("encode-error:{}", err_name(&e.err)), crate::api::show(&e), J::obj().set("cfg", cfg.to_json())),
         Err(p) => rep.violation("panic", p.signature(), p.msg.clone(), J::obj().set("cfg", cfg.to_json())),
     }
 }
